@@ -459,8 +459,24 @@ impl<'a> VisitMut for Rewriter<'a> {
                 }
                 _ => false,
             };
+            // D6: statements guarded by the verification-hook cfg are not part of the shipped code
+            let hook_guarded = stmt_attrs(&s).iter().any(|a| a.path().is_ident("cfg") && compact_tokens(&a.meta).contains("sierra_db_sierradb_verif"));
+            if hook_guarded {
+                self.dropped.push(format!("D6 hook statement `{}`", compact_tokens(&s).chars().take(80).collect::<String>()));
+                self.bump("D6");
+                continue;
+            }
+            // R1: the handle of a random generator is dropped together with its draws
+            let drop_rng = self.rule("R1")
+                && matches!(&s, Stmt::Local(l) if l.init.as_ref().map(|i| {
+                    let c = compact_tokens(&i.expr);
+                    c == "rand::rng()" || c == "rand::thread_rng()" || c == "thread_rng()"
+                }).unwrap_or(false));
             if drop {
                 self.bump("D2");
+            } else if drop_rng {
+                self.dropped.push(format!("R1 dropped `{}`", compact_tokens(&s)));
+                self.bump("R1");
             } else {
                 out.push(s);
             }
@@ -481,7 +497,17 @@ impl<'a> VisitMut for Rewriter<'a> {
         }
         // R1 non-determinism
         if self.rule("R1") && is_nondet_expr(e) {
-            let any = self.req.any_expr.clone().unwrap_or_else(|| "verif_any()".to_string());
+            let mut any = self.req.any_expr.clone().unwrap_or_else(|| "verif_any()".to_string());
+            // keep an explicit turbofish type of the draw: `rng.random::<u16>()` -> `verif_any::<u16>()`
+            {
+                if let Expr::MethodCall(mc) = &*e {
+                    if let Some(tf) = &mc.turbofish {
+                        if tf.args.len() == 1 {
+                            any = format!("verif_any::<{}>()", tf.args.first().unwrap().to_token_stream());
+                        }
+                    }
+                }
+            }
             match parse_str::<Expr>(&any) {
                 Ok(ne) => {
                     self.dropped.push(format!("R1 replaced `{}`", compact_tokens(e)));
@@ -574,6 +600,28 @@ impl<'a> VisitMut for Rewriter<'a> {
             }
         }
         visit_mut::visit_expr_closure_mut(self, c);
+    }
+}
+
+fn stmt_attrs(s: &Stmt) -> Vec<Attribute> {
+    match s {
+        Stmt::Local(l) => l.attrs.clone(),
+        Stmt::Macro(m) => m.attrs.clone(),
+        Stmt::Item(_) => vec![],
+        Stmt::Expr(e, _) => match e {
+            Expr::If(x) => x.attrs.clone(),
+            Expr::Block(x) => x.attrs.clone(),
+            Expr::Call(x) => x.attrs.clone(),
+            Expr::MethodCall(x) => x.attrs.clone(),
+            Expr::Macro(x) => x.attrs.clone(),
+            Expr::Match(x) => x.attrs.clone(),
+            Expr::Return(x) => x.attrs.clone(),
+            Expr::Assign(x) => x.attrs.clone(),
+            Expr::ForLoop(x) => x.attrs.clone(),
+            Expr::While(x) => x.attrs.clone(),
+            Expr::Unsafe(x) => x.attrs.clone(),
+            _ => vec![],
+        },
     }
 }
 
@@ -787,7 +835,11 @@ fn parse_path(p: &str) -> std::result::Result<PathSpec, String> {
     let tail = tail.trim();
     if kind == "impl" {
         let (trait_, tyrest) = match tail.split_once(" for ") {
-            Some((t, r)) => (Some(t.trim().rsplit("::").next().unwrap().to_string()), r.trim()),
+            Some((t, r)) => {
+                let t = t.trim();
+                let t = t.split('<').next().unwrap().trim();
+                (Some(t.rsplit("::").next().unwrap().to_string()), r.trim())
+            }
             None => (None, tail),
         };
         let (name, method) = match tyrest.split_once("::") {
